@@ -683,3 +683,53 @@ def check_c18(rep):
 
 
 REGISTRY.update({"C18": (check_c18, "model_checking")})
+
+
+# --------------------------------------------------------------------------------------------------
+# C19 LWE
+# --------------------------------------------------------------------------------------------------
+def check_c19(rep):
+    quick = rep.tier == "quick"
+    wd = workdir("C19")
+    # design: the butterfly algorithm refines the abstract packing / trace specification (TLC, all pack counts)
+    stats = rep.cov.setdefault("runs", [])
+    for (rn, rt) in ([(4, 17), (8, 17), (16, 97)] if quick else [(2, 5), (4, 17), (8, 17), (16, 97), (32, 193)]):
+        cfg = os.path.join(wd, "Lwe_%d.cfg" % rn)
+        open(cfg, "w").write("INIT RInit\nNEXT RNext\nCONSTANTS\n  RN = %d\n  RT = %d\nINVARIANTS PackRefines TraceRefines\nCHECK_DEADLOCK FALSE\n" % (rn, rt))
+        r = run_tlc("Lwe", cfg, wd, workers=1, timeout=900)
+        if r["violated"]:
+            raise ToolError("Lwe.tla: the packing algorithm does not refine the specification (%s) at N=%d" % (r["violated"], rn))
+        tlc_must_pass(r, "Lwe refinement N=%d" % rn)
+        stats.append({"refinement": "PackAlgo/TraceAlgo = PackSpec/TraceSpec", "n": rn, "t": rt, "states": r["distinct"]})
+        rep.cov["states"] = rep.cov.get("states", 0) + r["distinct"]
+        rep.cov["transitions"] = rep.cov.get("transitions", 0) + r["generated"]
+    psets = ["bfv_8_17_40,40,40", "bgv_8_17_40,40,40", "ckks_8_0_45,45,45", "bfv_4_17_40,40", "bfv_16_97_40,40,40"]
+    if not quick:
+        psets += ["bgv_16_97_40,40,40", "ckks_16_0_45,45,45", "bgv_4_17_40,40", "ckks_4_0_45,45", "bfv_32_193_45,45,45", "bgv_32_193_45,45,45"]
+    raw = []
+    for ps in psets:
+        raw += hcv(["c19", ps, str(rep.seed), rep.tier], timeout=900).splitlines()
+    bad, st = arith.validate(raw, wd, module="Trace_Lwe", chunks=4)
+    evs = [json.loads(l) for l in raw]
+    for b in bad:
+        e = evs[b[0] - 1]
+        sig = {"k": e["k"], "scheme": e["scheme"], "panic": "panic" in e}
+        if e["k"] == "pack":
+            sig["count_is_power_of_two"] = (len(e["vals"]) & (len(e["vals"]) - 1)) == 0
+        if e["k"] == "extract":
+            sig["ntt_input"] = e["ntt_input"]
+        rep.violation(sig, {"event": e})
+    rep.cov["states"] += st["distinct"]
+    rep.cov["transitions"] += st["generated"]
+    rep.cov["traces_validated_against_impl"] = len(raw)
+    rep.cov["evaluations"] = len(raw)
+    rep.cov["distinct_nontrivial"] = len({json.dumps([e["k"], e["n"], e["scheme"], e.get("i"), e.get("l"), len(e.get("vals", [])), e.get("ntt_input")]) for e in evs})
+    rep.cov["rule"] = ("events = for each parameter set (BFV/BGV/CKKS, N = 4..16 quick, ..32 thorough): extract+assemble of every coefficient index from either representation, "
+                       "field trace for every parameter 0..log2 N, packing of every count 1..N; the decrypted polynomial must equal the abstract specification of Lwe.tla "
+                       "(CKKS: rounded coefficients equal, deviation below 0.1); TLC also checks that the butterfly algorithm refines the specification for every count")
+    rep.samples += [{k: evs[i][k] for k in evs[i] if k != "panic"} for i in (0, len(evs) // 2, len(evs) - 1)]
+    rep.assumptions += ["CKKS inputs are small integers at scale 2^25; outputs are compared after rounding with a 0.1 deviation allowance"]
+    log("[C19] %d events, %d rejected" % (len(raw), len(bad)))
+
+
+REGISTRY.update({"C19": (check_c19, "model_checking")})
